@@ -1,6 +1,7 @@
 package main
 
 import (
+	"os"
 	"fmt"
 	"go/types"
 
@@ -27,7 +28,14 @@ type iterInfo struct {
 	known   bool
 	mapRef  *Term
 	str     *Term
+	// maps of unknown contents: the keys handed out so far, the key of the current iteration, creation order
+	visited *Term
+	curKey  *Term
+	msort   *Sort
+	seq     int
 }
+
+var iterSeq int
 
 type mapEntry struct{ k, v *Term }
 
@@ -481,6 +489,9 @@ func instancesOfGoal(pcIn []*Term, cands []*Term, goal *Term) []*Term {
 						continue
 					}
 					inst := Subst(t.Args[0], map[*Term]*Term{t.Bound[0]: cand})
+					if os.Getenv("GOVC_DEBUG") == "3" {
+						fmt.Fprintf(os.Stderr, "   visit-forall cand=%s true=%v seen=%v open=%v\n", truncate(cand.String(), 30), inst.IsTrue(), seen[inst], inst.open)
+					}
 					if !inst.IsTrue() && !seen[inst] && !inst.open {
 						seen[inst] = true
 						out = append(out, inst)
@@ -524,6 +535,7 @@ func instancesOfGoal(pcIn []*Term, cands []*Term, goal *Term) []*Term {
 			got := out
 			out = saved
 			for _, i := range got {
+				delete(seen, i) // emitted under the guard only
 				inst := Implies(t.Args[0], i)
 				if !inst.IsTrue() && !seen[inst] && !inst.open {
 					seen[inst] = true
@@ -535,9 +547,52 @@ func instancesOfGoal(pcIn []*Term, cands []*Term, goal *Term) []*Term {
 	for _, t := range s.pc {
 		visit(t)
 	}
+	// an instance  g => (A and B and ...)  is kept as separate implications, so that a quantified conjunct does not
+	// take the quantifier-free ones with it when quantified facts are left out of a query
+	{
+		var split []*Term
+		var sp func(guards []*Term, t *Term)
+		sp = func(guards []*Term, t *Term) {
+			switch {
+			case t.Op == "and":
+				for _, a := range t.Args {
+					sp(guards, a)
+				}
+			case t.Op == "=>" && (t.Args[1].Op == "and" || t.Args[1].Op == "=>"):
+				sp(append(append([]*Term{}, guards...), t.Args[0]), t.Args[1])
+			default:
+				u := t
+				if len(guards) > 0 {
+					u = Implies(And(guards...), t)
+				}
+				if !u.IsTrue() && !seen[u] {
+					seen[u] = true
+					split = append(split, u)
+				}
+			}
+		}
+		for _, t := range out {
+			delete(seen, t)
+			sp(nil, t)
+		}
+		out = split
+	}
+	// instances are read under the literals the path establishes outright (ite(dom[k], a, b) collapses where
+	// dom[k] is a hypothesis), so that their own quantifiers meet the goal's terms
+	known := knownFacts(pcIn)
+	if len(known) > 0 {
+		for i, t := range out {
+			if u := Subst(t, known); !u.IsTrue() {
+				out[i] = u
+			}
+		}
+	}
 	// one more round: quantifiers nested inside the instances just produced
 	first := append([]*Term(nil), out...)
 	for _, t := range first {
+		if os.Getenv("GOVC_DEBUG") == "3" {
+			fmt.Fprintf(os.Stderr, "   nested-round on (%s open=%v): %s\n", t.Op, t.open, truncate(t.String(), 100))
+		}
 		var inner func(x *Term, guards []*Term)
 		inner = func(x *Term, guards []*Term) {
 			switch x.Op {
@@ -571,6 +626,11 @@ func triggered(trig []*Term, bv, cand *Term) bool {
 	for _, t := range trig {
 		if occurring[Subst(t, map[*Term]*Term{bv: cand})] {
 			return true
+		}
+	}
+	if os.Getenv("GOVC_DEBUG") == "3" {
+		for _, t := range trig {
+			fmt.Fprintf(os.Stderr, "   untriggered at %s: %s\n", truncate(cand.String(), 40), truncate(Subst(t, map[*Term]*Term{bv: cand}).String(), 300))
 		}
 	}
 	return false
